@@ -2,6 +2,7 @@
   C13 — piece choice is rarest-first among what the peer can give.
 -/
 import RdestModel.Swarm.Choose
+import RdestModel.Swarm.Manager
 set_option linter.unusedSimpArgs false
 namespace Rdest.Props.C13
 open Rdest.Gen Rdest.Swarm
@@ -202,5 +203,44 @@ example :
     (rarestList st peers).reverse.Perm (rarestList st peers) ∧
     chooseImpl (rarestList st peers).reverse [true, true, true, true] = some 2 := by
   exact ⟨List.reverse_perm _, by decide⟩
+
+/-! ### The pick made on the Have path (`Peer::handle_have`) — the property is **refuted** there (recorded finding) -/
+
+/-- Run a history on the manager model. -/
+def mrun : MState → List Ev → Option MState
+  | s, [] => some s
+  | s, ev :: evs => match mstep s ev with
+    | .ok s' _ => mrun s' evs
+    | .panic _ => none
+
+def only (n i : Nat) : Pieces := (List.range n).map (· == i)
+
+/-- Twelve pieces. Peers 0 and 1 advertise piece 0 only, peers 2 and 3 piece 1 only. Peer 0 is asked for piece 0; peer 1
+    unchokes us while piece 0 is being fetched (nothing eligible: it stays idle); peer 0 chokes us (piece 0 is free
+    again). -/
+def haveWitness : List Ev :=
+  [.add 0 12, .bitfield 0 (only 12 0) (some 0), .add 1 12, .bitfield 1 (only 12 0) (some 0),
+   .add 2 12, .bitfield 2 (only 12 1) (some 1), .add 3 12, .bitfield 3 (only 12 1) (some 1),
+   .unchoke 0 (some 0), .unchoke 1 none, .choke 0]
+
+/-- What happens when peer 1 then announces piece 1: the manager's reply, whether pieces 1 and 0 are eligible for peer 1
+    at that moment, whether piece 0 is advertised by fewer peers, and whether the pick passes C13's `admissible`. -/
+def haveVerdict : Option (Reply × Bool × Bool × Bool × Bool) :=
+  (mrun { statuses := List.replicate 12 .missing, peers := [] } haveWitness).bind fun s =>
+    match mstep s (.have 1 1) with
+    | .ok _ r =>
+      let tgt := (((findPeer s 1).map (·.pieces)).getD []).set 1 true
+      let pcs := s.peers.map (fun p => if p.addr = 1 then tgt else p.pieces)
+      some (r, decide (eligible s.statuses pcs tgt 1), decide (eligible s.statuses pcs tgt 0),
+        decide (count pcs 0 < count pcs 1), admissible s.statuses pcs tgt (some 1))
+    | .panic _ => none
+
+/-- **C13 refuted for the Have path (the code as it is; finding `C13-have-path-pick-ignores-rarity`).** After the
+    history above peer 1 announces piece 1. `Peer::handle_have` asks it for piece 1 — eligible, but advertised by three
+    peers — although piece 0, which peer 1 also advertises and the client lacks and nobody fetches, is advertised by
+    two: the pick is not the chooser's and not rarest. (T1/T2 above are about `choose_piece_index`, which all other
+    picks go through.) -/
+theorem have_path_pick_not_rarest : haveVerdict = some (.request 1 true, true, true, true, false) := by
+  decide
 
 end Rdest.Props.C13
